@@ -144,7 +144,8 @@ class GenMonitor:
                 else:
                     g.note("zero-vol-row")
                     g.require(out[r, t] == self.want_drift[x], "C12.zero-vol-log-return!=drift")
-        self.gens.append({"until": f._generated_until, "ids": ids, "logret": out, "n_exp": len(self.exp_calls)})
+        self.gens.append({"until": f._generated_until, "ids": ids, "logret": out, "n_exp": len(self.exp_calls),
+                          "drift": dict(self.want_drift)})
         return out
 
 
@@ -366,6 +367,89 @@ class Paths(Harness):
             for j in range(rec["logret"].shape[1]):
                 g.require(rec["args"][r, j] == (j + 1) * mu2, "C12.zero-vol-exponent!=drift*steps",
                           f"deterministic market: exponent after {j + 1} steps is not drift x {j + 1}")
+
+
+class LateStart(Paths):
+    name = "LateStart"
+    title = "a market whose fundamental walk starts at start_at = s > 0, with back-dated and later parameter changes"
+    what_symbolic = ("initial values (>0), drifts, volatilities, draws, exp values (contract stub); the start time, the "
+                     "change time, the kind of change, whether the late market is deterministic and the chunk size are the case split")
+    nontrivial_event = "the generator had passed the late start when a parameter change dated before it arrived"
+    bounds = {"quick": "3 markets (one starting at s in {2,3}, stochastic or deterministic; one deterministic from 0), chunk size 2, 3 "
+                       "or 100, horizon 7, no change or one change (drift / volatility of the early market, drift of the late one) "
+                       "at t in {0 (the setters' default), 1, s, s+1}, after the whole horizon was read",
+              "thorough": "same"}
+    reach = ("nontrivial", "late-start", "history-kept", "zero-vol-path")
+    outside = ("float rounding of exp/cumsum", "two late markets with different starts")
+
+    def cases(self, tier):
+        out = []
+        for chunk in (2, 3, 100):
+            for s in (2, 3):
+                for zero in (False, True):
+                    out.append({"chunk": chunk, "s": s, "zero1": zero, "kind": "none", "t": 0})
+                    for kind in ("drift", "vol", "drift-late"):
+                        for t in (0, 1, s, s + 1):
+                            out.append({"chunk": chunk, "s": s, "zero1": zero, "kind": kind, "t": t})
+        return out
+
+    def run(self, g, case):
+        f = Fundamentals(prng=random.Random(0))
+        f._generate_chunk_size = case["chunk"]
+        s, t = case["s"], case["t"]
+        init = [g.real("init0", 0, 10 ** 6, lo_strict=True), g.real("init1", 0, 10 ** 6, lo_strict=True)]
+        vol1 = 0.0 if case["zero1"] else g.real("vol1", 0, 10, lo_strict=True)
+        f.add_market(0, init[0], g.real("mu0", -1, 1), g.real("vol0", 0, 10, lo_strict=True))
+        f.add_market(1, init[1], g.real("mu1", -1, 1), vol1, start_at=s)
+        f.add_market(2, 50.0, g.real("mu2", -1, 1), 0.0)
+        mon = GenMonitor(g, f)
+        try:
+            g.note("late-start")
+            first = {m: list(f.get_fundamental_prices(m, range(self.HORIZON + 1))) for m in (0, 1, 2)}
+            self.check_late(g, mon, first, init, s)
+            if case["kind"] == "drift":
+                f.change_drift(0, g.real("mu0b", -1, 1), time=t)
+            elif case["kind"] == "vol":
+                f.change_volatility(0, g.real("vol0b", 0, 10, lo_strict=True), time=t)
+            elif case["kind"] == "drift-late":
+                f.change_drift(1, g.real("mu1b", -1, 1), time=t)
+            if case["kind"] != "none" and t < s:
+                g.note("nontrivial")
+            allp = {m: f.get_fundamental_prices(m, range(self.HORIZON + 1)) for m in (0, 1, 2)}
+            for m in (0, 1, 2):
+                for k in range(t + 1):
+                    g.require(allp[m][k] == first[m][k], "C12.history-changed",
+                              f"market {m}: value at time {k} <= change time {t} was altered by the change")
+                g.note("history-kept")
+            self.check_late(g, mon, allp, init, s)
+        finally:
+            mon.restore()
+
+    def check_late(self, g, mon, allp, init, s):
+        for m in (0, 1, 2):
+            g.require(allp[m][0] == (init[m] if m < 2 else 50.0), "C12.starts-at-initial")
+            for k in range(self.HORIZON + 1):
+                g.require(allp[m][k] > 0, "C12.not-positive", f"market {m} time {k}")
+        for k in range(s + 1):
+            g.require(allp[1][k] == init[1], "C12.late-market-moves-before-its-start",
+                      f"market starting at {s}: value at time {k} is not the configured initial value")
+        for rec in mon.gens:
+            if 1 in rec["ids"]:
+                g.require(rec["until"] >= s, "C12.late-market-generated-before-its-start",
+                          f"market starting at {s} is part of a chunk that begins at {rec['until']}")
+        self.check_chain(g, None, mon, allp)
+        g.note("zero-vol-path")
+        for rec in mon.gens:
+            for x in rec["ids"]:
+                if bool(mon.want_vol[x] == 0.0):
+                    r = rec["ids"].index(x)
+                    for j in range(rec["logret"].shape[1]):
+                        g.require(rec["args"][r, j] == (j + 1) * rec["drift"][x], "C12.zero-vol-exponent!=drift*steps",
+                                  f"deterministic market {x}: exponent after {j + 1} steps is not drift x {j + 1}")
+
+
+class C12_LateStart(LateStart):
+    pass
 
 
 class C12_LogReturns(LogReturns):
